@@ -376,13 +376,20 @@
            (<= 0 (cty.refinementCollection.minLen (rcoll_at (unbox<*cty.refinementCollection> w))))
            (<= (cty.refinementCollection.minLen (rcoll_at (unbox<*cty.refinementCollection> w))) (cty.refinementCollection.maxLen (rcoll_at (unbox<*cty.refinementCollection> w))))
            (tri_ok (cty.refinementNullable.isNull (cty.refinementCollection.refinementNullable (rcoll_at (unbox<*cty.refinementCollection> w))))))
-      (and ((_ is box<*cty.refinementNullable>) w) (not (= (unbox<*cty.refinementNullable> w) 0))
+      (and ((_ is box<*cty.refinementNullable>) w) (not (= (unbox<*cty.refinementNullable> w) 0)) (not (is_dyn_ty t))
            (tri_ok (cty.refinementNullable.isNull (rnul_at (unbox<*cty.refinementNullable> w)))))))
+; the null-ness recorded in a refinement object (0 unknown, 84 'T', 70 'F'); 0 for "no refinement"
+(define-fun rfn_null ((w Any)) Int
+  (ite ((_ is box<*cty.refinementNumber>) w) (cty.refinementNullable.isNull (cty.refinementNumber.refinementNullable (rnum_at (unbox<*cty.refinementNumber> w))))
+  (ite ((_ is box<*cty.refinementString>) w) (cty.refinementNullable.isNull (cty.refinementString.refinementNullable (rstr_at (unbox<*cty.refinementString> w))))
+  (ite ((_ is box<*cty.refinementCollection>) w) (cty.refinementNullable.isNull (cty.refinementCollection.refinementNullable (rcoll_at (unbox<*cty.refinementCollection> w))))
+  (ite ((_ is box<*cty.refinementNullable>) w) (cty.refinementNullable.isNull (rnul_at (unbox<*cty.refinementNullable> w))) 0)))))
 (define-fun wf_payload ((v cty.Value)) Bool
   (let ((t (vty v)) (u (inner_v v)))
     (or (= u nil.Any)
         (and ((_ is box<*cty.unknownType>) u) (not (= (unbox<*cty.unknownType> u) 0))
-             (rfn_ok t (cty.unknownType.refinement (select F.cty.unknownType (unbox<*cty.unknownType> u)))))
+             (rfn_ok t (cty.unknownType.refinement (select F.cty.unknownType (unbox<*cty.unknownType> u))))
+             (not (= (rfn_null (cty.unknownType.refinement (select F.cty.unknownType (unbox<*cty.unknownType> u)))) 84)))
         (and (is_bool_ty t) ((_ is box<bool>) u))
         (and (is_number_ty t) ((_ is box<*math/big.Float>) u) (not (= (unbox<*math/big.Float> u) 0)))
         (and (is_string_ty t) ((_ is box<string>) u))
@@ -522,12 +529,6 @@
 
 ; ---- ranges of unknown numbers (C01, C05) ----------------------------------------------------------
 (define-fun rfn_of ((v cty.Value)) Any (cty.unknownType.refinement (select F.cty.unknownType (unk_ptr v))))
-; the null-ness recorded in a refinement object (0 unknown, 84 'T', 70 'F'); 0 for "no refinement"
-(define-fun rfn_null ((w Any)) Int
-  (ite ((_ is box<*cty.refinementNumber>) w) (cty.refinementNullable.isNull (cty.refinementNumber.refinementNullable (rnum_at (unbox<*cty.refinementNumber> w))))
-  (ite ((_ is box<*cty.refinementString>) w) (cty.refinementNullable.isNull (cty.refinementString.refinementNullable (rstr_at (unbox<*cty.refinementString> w))))
-  (ite ((_ is box<*cty.refinementCollection>) w) (cty.refinementNullable.isNull (cty.refinementCollection.refinementNullable (rcoll_at (unbox<*cty.refinementCollection> w))))
-  (ite ((_ is box<*cty.refinementNullable>) w) (cty.refinementNullable.isNull (rnul_at (unbox<*cty.refinementNullable> w))) 0)))))
 (define-fun bound_set ((b cty.Value)) Bool (and (not (= b nilval)) (is_known b)))
 (define-fun rn_lo_ok ((r cty.refinementNumber) (ci Int) (cr Real)) Bool
   (=> (bound_set (cty.refinementNumber.min r))
@@ -574,3 +575,9 @@
 ; "num_eq decides numeric equality for these two numbers" (true for whole numbers; for others it depends on
 ; the decimal text of math/big and is an explicit hypothesis where needed)
 (define-fun eq_exact ((a cty.Value) (b cty.Value)) Bool (= (num_eq a b) (and (= (num_i a) (num_i b)) (=> (= (num_i a) 0) (= (num_r a) (num_r b))))))
+; marks can only be nested inside known, non-null values of structural types
+(assert (forall ((v cty.Value)) (! (=> (or (not (is_known v)) (is_null v) (is_prim_ty (cty.Value.ty v))) (= (deep_marked v) (is_marked v))) :pattern ((deep_marked v)))))
+; the refinement object inside a ValueRange: that of a value, or the synthetic one Range() makes for
+; a dynamically typed value
+(define-fun rng_ok ((t cty.Type) (w Any)) Bool
+  (or (rfn_ok t w) (and (is_dyn_ty t) ((_ is box<*cty.refinementNullable>) w) (not (= (unbox<*cty.refinementNullable> w) 0)))))
